@@ -194,13 +194,16 @@ Definition cu_continue (d : dstate) (tot : nat) (add rmv : list (list Z)) : dsta
 Definition clause_update (d : dstate) (t : option Z) (add rmv : list (list Z)) : dstate * cc_answer :=
   match t with
   | Some tv =>
-    if 0 <? tv then
-      match cached d with
-      | None => (d, APanic)             (* self.cached_state.as_mut().unwrap() *)
-      | Some c => if contains_conflicting_clauses c (Z.to_nat tv) then (d, AErr E5_conflict)
-                  else cu_continue d (Z.to_nat tv) add rmv
-      end
-    else (d, AErr E4_total)
+    (* since fix 1bbe455 the pre-pass answers E5 when there is no clause cache
+       (before: self.cached_state.as_mut().unwrap() panicked) *)
+    match cached d with
+    | None => (d, AErr E5_no_clauses)
+    | Some c =>
+      if 0 <? tv then
+        if contains_conflicting_clauses c (Z.to_nat tv) then (d, AErr E5_conflict)
+        else cu_continue d (Z.to_nat tv) add rmv
+      else (d, AErr E4_total)
+    end
   | None => cu_continue d (live_n d) add rmv
   end.
 
